@@ -505,7 +505,7 @@ fn replace_blob(bytes: &[u8], lenf: &Field, content: &[u8]) -> Vec<u8> {
 }
 
 /// number of coordinated edit kinds
-pub const COORDINATED_KINDS: usize = 10;
+pub const COORDINATED_KINDS: usize = 11;
 /// index of "FRI remainder of another length" among the coordinated kinds (the `_` arm below)
 pub const REMAINDER_KIND: usize = 7;
 
@@ -652,6 +652,33 @@ pub fn coordinated_fault(bytes: &[u8], lay: &Layout, kind: usize, variant: usize
                 out.extend(std::iter::repeat(3u8).take(l as usize));
             }
             Some((format!("coordinated: GKR proof announced with {l} bytes"), out))
+        },
+        10 => {
+            // one surplus (arbitrary) digest appended to a node vector of a batch Merkle opening,
+            // with the vector's count and every enclosing length prefix adjusted; the vectors are
+            // taken evenly from first to last (the last FRI layer's included, whose tree may have
+            // two leaves only and whose node vectors may be empty)
+            let vecs: Vec<&Field> = lay.fields.iter().filter(|f| f.name.ends_with(".num_digests")).collect();
+            if vecs.is_empty() {
+                return None;
+            }
+            let dsz = fields_with_prefix(lay, "commitments.digest[").first()?.len;
+            let k = if variant % 16 == 15 { vecs.len() - 1 } else { (variant % 16) * vecs.len() / 15 };
+            let f = vecs[k.min(vecs.len() - 1)];
+            let nd = get(bytes, f.off, 1) as usize;
+            if nd >= 255 {
+                return None;
+            }
+            let mut out = bytes.to_vec();
+            put(&mut out, f.off, 1, nd as u64 + 1);
+            for (o, w) in &f.enclosing {
+                let v = get(&out, *o, *w).wrapping_add(dsz as u64);
+                put(&mut out, *o, *w, v);
+            }
+            let at = f.off + 1 + nd * dsz;
+            let junk: Vec<u8> = (0..dsz).map(|i| 0xA5u8 ^ (i as u8).wrapping_mul(29) ^ variant as u8).collect();
+            out.splice(at..at, junk);
+            Some((format!("coordinated: a surplus digest appended to {} (now {} digests)", f.name.trim_end_matches(".num_digests"), nd + 1), out))
         },
         9 => {
             // the proof-of-work nonce moved by a multiple of the base field's modulus M (read from
